@@ -39,7 +39,18 @@ SetR(s)  == [rk |-> "set", s |-> s]
 IntR(n)  == [rk |-> "tree", e |-> KI(n)]      \* a number is the tree Const
 NoneR    == [rk |-> "none"]
 
-IsZeroConst(e) == e.t = "Const" /\ IsNum(e.v) /\ e.v.n = 0
+\* Python truthiness of a (mapped) expression, as primitives.py defines __bool__:
+\* a number is false iff it is zero; a one-child sum is its child, a product is false
+\* iff some factor is, a quotient / floor division / remainder is its numerator;
+\* an empty tuple / list is false; every other node is true.
+RECURSIVE Falsy(_)
+Falsy(e) ==
+    CASE e.t = "Const" -> IsNum(e.v) /\ e.v.n = 0
+      [] e.t = "Sum" -> Len(e.c) = 1 /\ Falsy(e.c[1])
+      [] e.t = "Product" -> \E i \in 1..Len(e.c) : Falsy(e.c[i])
+      [] e.t \in {"Quotient", "FloorDiv", "Remainder"} -> Falsy(e.a)
+      [] e.t \in {"Tup", "List"} -> Len(e.c) = 0
+      [] OTHER -> FALSE
 
 \* ---- which children a handler recurses into, in order ---------------------
 RecKids(mk, e) ==
@@ -64,8 +75,9 @@ Combine(mk, e, a, rs) ==
                 (IF mk.m = "ident" THEN TreeR(V(e.name \o "_r" \o Sfx(a)))
                  ELSE IF e.name \in DOMAIN mk.map THEN TreeR(mk.map[e.name]) ELSE TreeR(e))
             ELSE IF e.t = "Const" THEN TreeR(e)
-            \* a wrapper whose mapped child is a zero number collapses to the number 0
-            ELSE IF e.t = "CSE" /\ IsZeroConst(rs[1].e) THEN TreeR(KI(0))
+            \* a wrapper whose mapped child is false in Python collapses to the number 0
+            \* (IdentityMapper.map_common_subexpression: "if is_zero(result): return 0")
+            ELSE IF e.t = "CSE" /\ Falsy(rs[1].e) THEN TreeR(KI(0))
             ELSE TreeR(WithKids(e, [i \in 1..Len(rs) |-> rs[i].e]))
       [] mk.m = "coll" ->
             IF e.t = "Var" THEN SetR({ V(e.name \o "_r" \o Sfx(a)) })
